@@ -59,6 +59,10 @@ func (h *Hist) genWritePath(root *Node) []seg {
 	cur := root
 	isIdx := !root.IsObj
 	depth := 1 + h.d.Draw("path-depth", 4)
+	if h.d.Draw("path-depth-tail", 10) == 0 {
+		depth = 5 + h.d.Draw("path-depth-long", 6)
+		h.counters["probe:tf-long-path"]++
+	}
 	for lvl := 0; lvl < depth; lvl++ {
 		s := seg{isIdx: isIdx}
 		if isIdx {
@@ -432,9 +436,6 @@ func opExport(h *Hist) {
 	} else {
 		name = [...]string{"NativeSlice", "Slice", "Slice", "ObjectSlice", "ListSlice", "StringSlice", "BoolSlice", "IntSlice", "FloatSlice"}[h.d.Draw("export-kind", 9)]
 	}
-	if (name == "NativeDict" || name == "NativeSlice") && h.hasDerivedBelow(n) {
-		return
-	}
 	h.begin(name, "C13", "C09")
 	h.curOwner = []string{"C13"}
 	var live any
@@ -659,7 +660,7 @@ func opImport(h *Hist) {
 		}
 		return out
 	}
-	width := h.d.Draw("import-width", 5)
+	width := h.tail("import-width", 5, 60)
 	if reuse != nil {
 		src = reuse.Live
 	} else {
